@@ -77,6 +77,9 @@ func parseUrlPath(pathStr string, m meta.Definition) ([]*Path, error) {
 			if !isList {
 				return nil, fmt.Errorf("%w. %s is not a list and cannot have a key", fc.BadRequestError, ident)
 			}
+			if len(keyStrs) < len(listMeta.KeyMeta()) {
+				return nil, fmt.Errorf("%w. list %s has %d keys but %d were given", fc.BadRequestError, ident, len(listMeta.KeyMeta()), len(keyStrs))
+			}
 			if seg.Key, err = NewValuesByString(listMeta.KeyMeta(), keyStrs...); err != nil {
 				return nil, err
 			}
